@@ -11,7 +11,8 @@ AVOID = {'int_ext_open',      # INTEGER (MIN..x, ...) -> TypeError in Integer.en
          'str_ext_outside',   # known-multiplier string length outside an extensible SIZE: silent corruption
          'bits_ext_outside',  # BIT STRING length outside an extensible SIZE: NotImplementedError
          'alpha1',            # single-character permitted alphabet: zero-bit characters decode to ''
-         'group_zero_width'}  # addition group whose only content is zero-width: treated as absent
+         'group_zero_width',  # addition group whose only content is zero-width: treated as absent
+         'size_ext_over_16k'}  # length outside an extensible SIZE and >= 16384: one fragment marker, then all the data
 
 OPTS = dict(avoid=AVOID, str_kinds=G.KM_KINDS + ['UTF8String'])
 
